@@ -115,6 +115,16 @@ def _setctr(start):
 def _dctr(start):
     c = _it.count(start)
     return lambda: {"k": next(c)}
+
+
+def _octr(start):       # products are INSTANCES of a Structure class: Owner(name="n<k>")
+    c = _it.count(start)
+    return lambda: Owner(name=f"n{next(c)}")
+
+
+def _olctr(start):
+    c = _it.count(start)
+    return lambda: [Owner(name=f"n{next(c)}")]
 """
 
 
@@ -140,6 +150,8 @@ def meaning_decl(m):
         return {"k": "anyOf", "fields": [meaning_decl(m["x"]), {"k": "noneF"}]}
     if t == "alt":
         return {"k": "anyOf", "fields": [meaning_decl(m["x"]), meaning_decl(m["y"])]}
+    if t == "altlit":      # documented: `X | 529` - the literal is one more alternative (an Enum of that value)
+        return {"k": "anyOf", "fields": [meaning_decl(m["x"]), {"k": "enumLit", "values": [m["v"]]}]}
     if t == "struct":      # a Structure class used as a field type: a reference to that class
         return struct_decl(m["c"])
     if t == "tup":         # documented: Tuple[X, Y] = a tuple of exactly that shape
@@ -209,6 +221,9 @@ def gen_meaning(rng, dg, depth, allow_opt=True):
         return {"m": "coll", "c": c, "x": x}
     if r < 0.56:
         return {"m": "tup", "x": gen_meaning(rng, dg, depth - 1), "y": gen_meaning(rng, dg, depth - 1)}
+    if r < 0.6:        # `X | 529`, `X | "abc"`: a literal alternative
+        x = gen_meaning(rng, dg, depth - 1, allow_opt=False)
+        return {"m": "altlit", "x": x, "v": rng.choice([529, 0, -3, "abc", "", True, gen.fl(gen.Fraction(5, 2))])}
     if r < 0.72:
         return {"m": "dict", "x": gen_hashable(rng, dg), "y": gen_meaning(rng, dg, depth - 1)}
     if r < 0.86 and allow_opt:
@@ -248,7 +263,7 @@ def is_field_expr(sp):
     if s in ("fcls", "finst", "lit", "bareCls", "bareInst", "sub", "call", "mapBare", "mapInst", "mapSub", "mapCall",
              "anyOf", "tupSub", "tupCall"):
         return True
-    if s == "pipe":
+    if s in ("pipe", "pipeLit"):
         return is_field_expr(sp["x"])
     return False
 
@@ -373,6 +388,15 @@ def spell(m, rng, style):
             if not (is_field_or_struct(x) and is_field_or_struct(y)):
                 form = "mapSub"
         return {"s": form, "x": x, "y": y}
+    if t == "altlit":
+        # the left operand must be a Field (class or instance) for `|` with a plain value to be defined
+        x = spell(m["x"], rng, style)
+        if not is_field_expr(x):
+            x = spell(m["x"], rng, rng.choice(["native", "call", "inst"]))
+        enum = {"s": "lit", "d": {"k": "enumLit", "values": [m["v"]]}, "len": 0}
+        if is_field_expr(x) and st in ("inst", "pep604", "builtin", "typing"):
+            return {"s": "pipeLit", "x": x, "v": m["v"], "len": len(py_literal(m["v"]))}
+        return {"s": "anyOf", "x": x, "y": enum}
     if t == "tup":
         form = {"native": "tupSub", "builtin": "tup585", "typing": "tupTyping", "call": "tupCall", "inst": "tupSub",
                 "pep604": "tup585"}[st]
@@ -503,11 +527,13 @@ def render(sp, default=None):
         return f"AnyOf[{render(sp['x'])}, {render(sp['y'])}]"
     if s == "pipe":
         r = render(sp["y"])
-        if sp["y"]["s"] == "pipe":
+        if sp["y"]["s"] in ("pipe", "pipeLit"):
             r = f"({r})"
         return f"{render(sp['x'])} | {r}"
     if s == "scls":
         return sp["c"]
+    if s == "pipeLit":
+        return f"{render(sp['x'])} | {py_literal(sp['v'])}"
     if s == "tup585":
         return f"tuple[{render(sp['x'])}, {render(sp['y'])}]"
     if s == "tupTyping":
@@ -568,6 +594,11 @@ def factory_for(m, rng):
         if k == "str":
             return {"src": f"_sctr({start})", "v": f"s{start}"}
         return None
+    owner = {"m": "struct", "c": "Owner"}
+    if t == owner:
+        return {"src": f"_octr({start})", "v": {"o": ["Owner", [["name", f"n{start}"]]]}}
+    if t["m"] == "coll" and t["x"] == owner and t["c"] == "list":
+        return {"src": f"_olctr({start})", "v": {"l": [{"o": ["Owner", [["name", f"n{start}"]]]}]}}
     int_elem = {"m": "scalar", "k": "int"}
     if t["m"] == "coll" and t["x"] == int_elem and t["c"] in ("list", "tuple", "set"):
         tag, fn = {"list": ("l", "_lctr"), "tuple": ("t", "_tctr"), "set": ("s", "_setctr")}[t["c"]]
@@ -657,8 +688,8 @@ def features(v, f, ann_len):
         # `Tuple(items=Owner)` / `Tuple(items=[X, Owner])`: Tuple.__init__ converts Field classes only
         # (was the finding tuple-items-structure-class, fixed in typedpy: no longer a known divergence)
     d = f.get("dflt")
-    if d and d["how"] == "kw" and not _truthy(d["v"]):
-        out.append("falsy-default-kw")
+    if d and d["how"] == "kw" and d["v"] is not None and not _truthy(d["v"]):
+        out.append("falsy-default-kw")       # (`default=None` is simply "no default": no divergence expected)
     if f.get("unresolved") and v.get("scope") == "enclosing":
         out.append("string-annotation-enclosing-scope")  # names of an enclosing function are not visible to eval
     res = []
@@ -751,7 +782,8 @@ def field_variants(rng, vg, name, m, n_random, extra_tys=(), default=RANDOM_DEFA
 
     def hows_for(mode, ty):
         if default is NODEF:
-            return [None]
+            # `default=None` (the keyword's own default) is one more way of writing "no default"
+            return [None] + (["kwNone"] if ty["s"] in KW_ALLOWED and rng.random() < 0.25 else [])
         if default is None:
             return (["eq"] if mode == "ann" else []) + ([None] if has_none else [])
         hs = ["eq"] if mode == "ann" else []
@@ -763,7 +795,10 @@ def field_variants(rng, vg, name, m, n_random, extra_tys=(), default=RANDOM_DEFA
 
     def add(ty, mode, how):
         f = {"name": name, "mode": mode, "ty": ty}
-        if how is not None and how.endswith("F"):
+        if how == "kwNone":
+            how = "kw"
+            f["dflt"] = {"how": "kw", "v": None, "len": 4}
+        elif how is not None and how.endswith("F"):
             f["dflt"] = {"how": how, "v": default["v"], "src": default["src"], "len": len(default["src"])}
         elif how is not None:
             f["dflt"] = {"how": how, "v": default, "len": len(py_literal(default))}
@@ -1062,8 +1097,10 @@ def factory_cases(rng, tier):
             {"m": "alt", "x": int_, "y": str_}, {"m": "coll", "c": "list", "x": int_},
             {"m": "coll", "c": "tuple", "x": int_}, {"m": "coll", "c": "set", "x": int_},
             {"m": "dict", "x": str_, "y": int_}, {"m": "bare", "c": "list"}, {"m": "bareDict"},
-            {"m": "opt", "x": {"m": "coll", "c": "list", "x": int_}}]
-    picks = pool if tier != "quick" else [int_, pool[6]] + rng.sample([p for p in pool if p not in (int_, pool[6])], 3)
+            {"m": "opt", "x": {"m": "coll", "c": "list", "x": int_}},
+            {"m": "struct", "c": "Owner"}, {"m": "opt", "x": {"m": "struct", "c": "Owner"}},
+            {"m": "coll", "c": "list", "x": {"m": "struct", "c": "Owner"}}]
+    picks = pool if tier != "quick" else [int_, pool[6], pool[-3]] + rng.sample([p for p in pool if p not in (int_, pool[6], pool[-3])], 3)
     other = {"m": "scalar", "k": rng.choice(["str", "int"])}
     cases = []
     for m in picks:
@@ -1378,7 +1415,10 @@ def scope_cases(rng, tier):
                     if b is bases[0] and scope == "module" and not future and not quoted:
                         continue
                     fields = [dict(f, quoted=True) if quoted and f["mode"] == "ann" else f for f in b["fields"]]
-                    vs.append(mark_unresolved({"future": future, "scope": scope, "fields": fields}))
+                    extra = {k: b[k] for k in ("required", "undocumented") if b.get(k) is not None}
+                    if extra and quoted:
+                        continue      # (`_required` is not combined with quoted annotations, see gen_case)
+                    vs.append(mark_unresolved(dict({"future": future, "scope": scope, "fields": fields}, **extra)))
         c["variants"] = vs
         cases.append(c)
     return cases
@@ -1440,6 +1480,9 @@ def _product_index(v):
         return int(v)
     if isinstance(v, str) and v[:1] == "s" and v[1:].isdigit():
         return int(v[1:])
+    nm = getattr(v, "name", None) if hasattr(v, "get_all_fields_by_name") else None
+    if isinstance(nm, str) and nm[:1] == "n" and nm[1:].isdigit():
+        return int(nm[1:])        # Owner(name="n<k>")
     if isinstance(v, (list, tuple, set, frozenset)) or hasattr(v, "__iter__") and not isinstance(v, (str, dict)):
         xs = list(v)
         return _product_index(xs[0]) if len(xs) == 1 else None
@@ -1732,7 +1775,9 @@ def oracle(case, impl, model):
             for f, mf in zip(v["fields"], mv["fields"]):
                 m = mf["meaning"]
                 if not mf["supported"] and mf.get("flat"):
-                    m = mf["flat"]       # directly nested Union / Optional: the flattened meaning (C13.elabField_flatten)
+                    m = mf["flat"]       # directly nested Union / Optional / |: the flattened meaning (C13.elabField_meaningX)
+                    if "err" in m:
+                        continue
                 elif not mf["supported"] or "err" in m or "dropped" in m:
                     continue
                 ffeats = features(v, f, mf["annLen"])
